@@ -31,6 +31,8 @@ def work(args):
     for i in range(n):
         A, B, cls = make_case(G, idx * 3 + i)
         out.append((A, B, cls, interlib.observe(impl, A, B)))
+        for A2, B2 in interlib.twin_followups(A, B):      # the same call with one operand replaced by a hash twin, right afterwards
+            out.append((A2, B2, cls + '+hash-twin', interlib.observe(impl, A2, B2)))
     return out
 
 
